@@ -104,7 +104,7 @@ func (g *Gateway) extractHostname(host string) (hostname string, err error) {
 		err = fmt.Errorf("gateway: invalid hostname for forwarding")
 		return
 	}
-	if slices.Contains(g.RootDomains, parts[1]) {
+	if slices.ContainsFunc(g.RootDomains, func(root string) bool { return strings.EqualFold(root, parts[1]) }) {
 		hostname = parts[0]
 	} else {
 		hostname = host
